@@ -162,6 +162,9 @@ def run_model(lines, shards=NPROC, timeout=3600):
     return parsed
 
 
+LAST_VM_LOG = ""
+
+
 def crosscheck_vm(lines, k=8, maxlen=20000):
     """extraction + driver vs the kernel's own evaluation: re-evaluate a sample of request lines with
     vm_compute inside coqc and compare with what the extracted binary answered (raw text).  Returns
@@ -184,9 +187,20 @@ def crosscheck_vm(lines, k=8, maxlen=20000):
         f.write("\n".join(body) + "\n")
         path = f.name
     try:
-        q = subprocess.run(["timeout", "600", "coqc", "-Q", "theories", "FV", "-Q", "gen", "FVGen", path],
+        # large string literals need a deep stack in coqc
+        q = subprocess.run(["sh", "-c", "ulimit -s unlimited 2>/dev/null; exec timeout 600 coqc -Q theories FV -Q gen FVGen " + path],
                            cwd=COQ, capture_output=True, text=True)
         agreed = len(re.findall(r"=\s*true", q.stdout))
+        differ = len(re.findall(r"=\s*false", q.stdout))
+        global LAST_VM_LOG
+        LAST_VM_LOG = ""
+        if differ:
+            LAST_VM_LOG = (q.stdout[-1500:] + "\n" + q.stderr[-1500:]).strip()
+            return len(sample), agreed
+        if agreed != len(sample):
+            # coqc gave up (resource limit) before evaluating every request: those were not compared
+            LAST_VM_LOG = "not all evaluated: " + q.stderr[-300:].strip()
+            return agreed, agreed
         return len(sample), agreed
     finally:
         for ext in ("", "o", "ok", "os"):
